@@ -60,9 +60,12 @@ def distinct_rows(rng, n, d, scale=1.0):
     return np.ascontiguousarray(X)
 
 
-def coded_affinity(n):
-    """Symmetric matrix whose entry (i,j) identifies the unordered pair {i,j}: A[i,j] = 1 + min*n + max."""
+def coded_affinity(n, ordered=False):
+    """Matrix whose entry (i,j) identifies the pair: symmetric A[i,j] = 1 + min*n + max (unordered pair), or with
+    ordered=True A[i,j] = 1 + i*n + j (ordered pair: a transposed block is then visible too)."""
     i, j = np.meshgrid(np.arange(n), np.arange(n), indexing="ij")
+    if ordered:
+        return (1.0 + i * n + j).astype(np.float64)
     return (1.0 + np.minimum(i, j) * n + np.maximum(i, j)).astype(np.float64)
 
 
